@@ -1,5 +1,6 @@
 import Sif.Proofs.C05
 import Sif.Proofs.C06
+import Sif.Proofs.C05Float
 /-
   C05 — bridge prophecies need the whitelisted-power threshold and are final.
   Property theorems only (helper lemmas: Sif/Proofs/C05.lean).  Quantifiers: every validator set, every
@@ -162,6 +163,37 @@ theorem success_needs_threshold (ord : List Group → List Group) (hord : ∀ l,
 example : ((processClaim id [⟨0, 40, true⟩, ⟨1, 30, true⟩, ⟨2, 30, true⟩]
     ⟨[0, 1, 2], [⟨"a", .pending, .empty, [(.eth 1 2 "x" 0 2, [0])], [(0, .eth 1 2 "x" 0 2)]⟩], none⟩
     ⟨"a", 1, .eth 1 2 "x" 0 2⟩).toOption.map (·.2)) = some (.success, .eth 1 2 "x" 0 2) := by decide
+
+/-- Full statement about the float test (not proved, and false far outside the envelope: for totals of about
+    10^15 and more the double quotient of a ratio just below 7/10 can round up to `float64(0.7)`): the float64
+    comparison of `processCompletion` equals the integer test of the model for every power and total. -/
+def float_test_matches_integer_Statement : Prop :=
+  ∀ p t : Nat, 0 < t → Sif.F64.divGE07 p t = ratioGE p t
+
+/-- Proved restriction (envelope: total whitelisted bonded power below 2^48 whole rowan, DESIGN section 5):
+    `float64(p)/float64(t) >= 0.7` — the correctly rounded double quotient (53-bit significand, round-half-even)
+    compared with `float64(0.7) = 0x3FE6666666666666` — holds iff `7·t ≤ 10·p`; hence `ratioGE`/`ratioLT`
+    of the model are the float tests.  Trusted here: that `F64.sigDiv` is IEEE-754 division (exact for quotients in
+    [1/2, 1); other binades follow from monotonicity of rounding, not formalised) and that Go converts integers below
+    2^53 exactly.  The correspondence checks the real Go decision on boundary vectors `10p − 7t ∈ {−1, 0, 1}`. -/
+theorem float_test_matches_integer_partial (p t : Nat) (ht0 : 0 < t) (ht : t < 2 ^ 48) :
+    Sif.F64.divGE07 p t = ratioGE p t ∧ (!Sif.F64.divGE07 p t) = ratioLT p t := by
+  have h := Sif.F64.divGE07_iff p t ht0 ht
+  rw [ratioGE_nat p t ht0, ratioLT_nat p t ht0]
+  by_cases h7 : 7 * t ≤ 10 * p
+  · have h1 := h.mpr h7
+    have h2 : ¬ (10 * p < 7 * t) := by omega
+    simp [h1, h7, h2]
+  · have h1 : Sif.F64.divGE07 p t = false := by
+      cases hh : Sif.F64.divGE07 p t with
+      | false => rfl
+      | true => exact (h7 (h.mp hh)).elim
+    have h2 : 10 * p < 7 * t := by omega
+    simp [h1, h7, h2]
+
+example : Sif.F64.divGE07 7 10 = true ∧ Sif.F64.divGE07 69 100 = false ∧
+    Sif.F64.divGE07 197032483697458 281474976710655 = false ∧
+    Sif.F64.divGE07 197032483697459 281474976710655 = true := by decide
 
 /-! ### finality -/
 
